@@ -24,6 +24,13 @@ pub fn install_panic_hook() {
         } else {
             "?".to_string()
         };
+        if crate::IN_CALL.load(std::sync::atomic::Ordering::Relaxed) == 0 {
+            // not inside a guarded call into the crate: the harness itself gives up (a tool error, never a verdict)
+            eprintln!("HARNESS-PANIC {loc}: {msg}");
+            if std::env::var("VERIF_BACKTRACE").is_ok() {
+                eprintln!("{}", std::backtrace::Backtrace::force_capture());
+            }
+        }
         LAST_PANIC.with(|p| *p.borrow_mut() = Some(format!("{loc}: {msg}")));
     }));
 }
